@@ -489,3 +489,33 @@ Definition ok_vps (rec : env) (nal : list Z) (o : pobs) : bool :=
     if zlist_eqb nal (nal_of_bits b) && nal_shape_ok nal then pobs_eqb o (Some (vps_view a)) else true
   | None => true
   end.
+
+(* ------------------------------------------------------------ D30: inter RPS prediction *)
+(* 7.3.7 with inter_ref_pic_set_prediction_flag = 1, for the last set of the SPS (its derived
+   NumDeltaPocs is then never needed to parse anything): the standard's syntax that the Go
+   decoder cannot read.  Used for the replayed witness only. *)
+Definition std_rps_i (r : Z) : fmt :=
+  When (fun _ => negb (r =? 0)) (Flag (h_rps_inter r)) ;;
+  If (isf (h_rps_inter r) 1)
+    (Assert (fun a => r =? get a h_num_st_rps - 1) ;;
+     Assert (isf (h_rps_inter (r - 1)) 0) ;;
+     Flag (h_rps_sign r) ;; UE (h_rps_abs r) 32767 32 ;;
+     Repeat (fun a => get a (h_rps_neg (r - 1)) + get a (h_rps_pos (r - 1)) + 1) (fun j =>
+       Flag (h_rps_used r j) ;; When (isf (h_rps_used r j) 0) (Flag (h_rps_use_delta r j))))
+    (rps_explicit 16 32 32767 32 r).
+Definition std_h265_sps_i : fmt :=
+  sps_gen 15 3 16888 8 12 64 32 32 32 (slo_gen 16 32 h_slo_present) std_scaling265 std_rps_i std_vui265 true.
+Definition uses_inter_rps (a : env) : bool :=
+  get a (h_rps_inter (get a h_num_st_rps - 1)) =? 1.
+Definition ok_h265_i (rec : env) (nal : list Z) (o : vobs) : bool :=
+  match emit std_h265_sps_i rec env0 with
+  | Some (b, a) =>
+    if h265_ranges a && zlist_eqb nal (nal_of_bits b) && nal_shape_ok nal
+    then match o with
+         | Some (w, h, f, _) =>
+           let '(sw, sh, sf) := spec_h265_obs a in (w =? sw) && (h =? sh) && (f =? sf)
+         | None => false
+         end
+    else true
+  | None => true
+  end.
